@@ -520,7 +520,12 @@ func (f *vfFix) run(c vfCfg, script []string) vfRes {
 	}
 	req.ReplicaReadType = rt
 	if c.read {
-		if c.stale {
+		if c.stale && rt == kv.ReplicaReadLeader {
+			// exactly what KVSnapshot.get does for a staleness snapshot whose ReplicaReadAdjuster answers "leader"
+			// (SetIsStalenessReadOnly + SetReplicaReadAdjuster): stale flag kept, type switched to leader
+			req.EnableStaleWithMixedReplicaRead()
+			req.SetReplicaReadType(kv.ReplicaReadLeader)
+		} else if c.stale {
 			req.StaleRead = true
 			req.ReplicaRead = false
 		} else {
@@ -656,6 +661,9 @@ func (f *vfFix) run(c vfCfg, script []string) vfRes {
 		fl := e[strings.Index(e, ":")+1:]
 		if !c.read && (fl[0] == '1' || fl[1] == '1') {
 			fails = append(fails, fmt.Sprintf("write-flag@%d", ai))
+		}
+		if os.Getenv("VERIF_C10_BOTHFLAGS") == "1" && fl[0] == '1' && fl[1] == '1' {
+			fails = append(fails, fmt.Sprintf("both-read-flags@%d", ai)) // opt-in: finding candidate, see docs/C10.md
 		}
 		if (ai > 0) != (fl[2] == '1') {
 			fails = append(fails, fmt.Sprintf("retry-flag@%d", ai))
@@ -960,6 +968,24 @@ func VerifSendReqMain(args []string) int {
 					g.emit(d, s)
 				}
 			}
+		}
+	}
+	// class F: forwarding on (leader read type; proxy strategy when the leader's store is not reachable)
+	LF := 3
+	if thorough {
+		LF = 4
+	}
+	for _, rd := range []bool{true, false} {
+		for _, lv := range []string{"RRR", "URR", "UUR", "URU", "KRR", "UUU"} {
+			c := vfDefaultCfg()
+			c.read = rd
+			c.fw = true
+			copy(c.live[:], lv)
+			L := LF
+			if lv != "RRR" && lv != "URR" {
+				L = LF - 1
+			}
+			g.enum(c, alphaA, nil, L)
 		}
 	}
 	// class E: every command type x short scripts: each single outcome, replica exhaustion (pseudo region error made by
